@@ -196,9 +196,19 @@ pub fn exec_trace(trace: &Value, res: &mut ExecResult) -> u64 {
     // clap: the file is a positional argument followed by trailing var args, so -e goes first
     let mut e_args: Vec<String> = vec![];
     if channel == "e" || channel == "split" {
-        for l in &e_lines {
+        // `e_groups`: how many consecutive lines go into one -e argument (multi-line arguments)
+        let groups: Vec<usize> = trace["e_groups"]
+            .as_array()
+            .map(|a| a.iter().filter_map(|x| x.as_u64().map(|v| v as usize)).collect())
+            .unwrap_or_default();
+        let mut i = 0;
+        let mut g = 0;
+        while i < e_lines.len() {
+            let take = groups.get(g).copied().unwrap_or(1).max(1).min(e_lines.len() - i);
             e_args.push("-e".into());
-            e_args.push(l.clone());
+            e_args.push(e_lines[i..i + take].join("\n"));
+            i += take;
+            g += 1;
         }
     }
     let mut full_args = vec![];
@@ -489,6 +499,12 @@ fn gen_trace(w: &mut SessWorker, rng: &mut Rng, res: &mut ExecResult) -> Option<
         last_is_expr = false;
     }
 
+    // blank lines (an empty -e argument / an empty line in the file)
+    if rng.chance(0.2) {
+        let positions: Vec<usize> = (0..=lines.len()).filter(|i| *i == 0 || !lines[*i - 1].starts_with('@')).collect();
+        let at = *rng.pick(&positions);
+        lines.insert(at, String::new());
+    }
     // fault
     let mut fault = Value::Null;
     let with_fault = rng.chance(0.55);
@@ -544,6 +560,14 @@ fn gen_trace(w: &mut SessWorker, rng: &mut Rng, res: &mut ExecResult) -> Option<
         for (k, l) in stmt_lines.into_iter().enumerate() {
             tl.insert(at + k, l);
         }
+        if kind == FaultKind::Parse && rng.chance(0.3) {
+            // a second syntax error further down: several diagnostics for one input
+            let later: Vec<usize> = (idx + 1..=tl.len()).filter(|i| !tl[*i - 1].starts_with('@')).collect();
+            if !later.is_empty() {
+                let at2 = *rng.pick(&later);
+                tl.insert(at2, "let = 3".to_string());
+            }
+        }
         // learn the stage from the library (and make sure the input really fails)
         let mut s = if no_prelude { Sess::new(w.importer.clone()) } else { base.clone() };
         let mut stage = "ok";
@@ -582,6 +606,17 @@ fn gen_trace(w: &mut SessWorker, rng: &mut Rng, res: &mut ExecResult) -> Option<
         }
     }
 
+    // multi-line -e arguments: group consecutive lines (a decorator stays with its statement)
+    let mut e_groups: Vec<usize> = vec![];
+    if !e_lines.is_empty() && rng.chance(0.35) {
+        let mut i = 0;
+        while i < e_lines.len() {
+            let mut take = rng.range(1, 3) as usize;
+            take = take.min(e_lines.len() - i);
+            e_groups.push(take);
+            i += take;
+        }
+    }
     // environment
     let mut flags: Vec<String> = vec![];
     if no_prelude {
@@ -644,6 +679,7 @@ fn gen_trace(w: &mut SessWorker, rng: &mut Rng, res: &mut ExecResult) -> Option<
         "last_is_expr": last_is_expr,
         "check_equivalence": rng.chance(0.5),
         "file_first": rng.chance(0.5),
+        "e_groups": e_groups,
     }))
 }
 
@@ -715,6 +751,12 @@ impl Prop for C22 {
         let ef = trace["env_fault"].as_str().unwrap_or("");
         if !ef.is_empty() {
             res.bump(&format!("fault.cli-io.{ef}"));
+        }
+        if trace["e_groups"].as_array().map(|a| a.iter().any(|x| x.as_u64().unwrap_or(1) > 1)).unwrap_or(false) {
+            res.bump("probe.multi_line_e_argument");
+        }
+        if trace["file_lines"].as_array().into_iter().flatten().chain(trace["e_lines"].as_array().into_iter().flatten()).any(|l| l.as_str() == Some("")) {
+            res.bump("probe.blank_line_or_empty_e_argument");
         }
         for fl in trace["flags"].as_array().into_iter().flatten() {
             if let Some(s) = fl.as_str()
@@ -808,6 +850,8 @@ impl Prop for C22 {
             "fault.cli-io.good-init",
             "fault.cli-io.modules-path-nowhere",
             "checks.channel_equivalence",
+            "probe.multi_line_e_argument",
+            "probe.blank_line_or_empty_e_argument",
             "flag.--no-prelude",
             "flag.--pretty-print",
             "runs.all-succeeding",
